@@ -27,14 +27,33 @@ import (
 //	R <id> <json>                                                 replay of a (shrunk) failing history
 //	X <id> <reason>                                               inconclusive (harness error)
 //	P <id> <panic site>                                           the real code panicked (C05's business)
+//	K <id> <json>                                                 … while capturing an event, before Process: replay (C01's business)
 
-func evToken(e EvRec, ids map[p.Key]int) string {
-	k := p.Key{Kind: e.Kind, NN: e.NN}
-	if _, ok := ids[k]; !ok {
-		ids[k] = len(ids)
+// keyIDs numbers the (kind, name) pairs for the Lean model. 0 is reserved for the configured special name of a
+// kind — the two names the handler's objectFilters are keyed with (`gatewayPodConfig.Namespace/ServiceName` for
+// Service, `controlConfigNSName` for NginxGateway; configuration the harness itself hands to the handler).
+type keyIDs struct {
+	ids  map[p.Key]int
+	next int
+}
+
+func newKeyIDs() *keyIDs {
+	return &keyIDs{ids: map[p.Key]int{ngfSvcKey: 0, controlConfigKey: 0}, next: 1}
+}
+
+func (k *keyIDs) id(key p.Key) int {
+	if v, ok := k.ids[key]; ok {
+		return v
 	}
+	k.ids[key] = k.next
+	k.next++
+	return k.ids[key]
+}
+
+func evToken(in InRec, ids *keyIDs) string {
+	id := ids.id(p.Key{Kind: in.Kind, NN: in.NN})
 	op := "u"
-	if e.Del {
+	if in.Del {
 		op = "d"
 	}
 	b := func(x bool) string {
@@ -43,35 +62,62 @@ func evToken(e EvRec, ids map[p.Key]int) string {
 		}
 		return "0"
 	}
+	if !in.Fwd {
+		// the real handler kept the event from the change processor: no predicate answer was observed
+		return fmt.Sprintf("%s:%s:%d:--", in.Kind, op, id)
+	}
+	e := in.Ev
 	// the oracle bit handed to the model: the observed decision where it is exact, else the peeked verdict
 	// (for a delete of an object that is not in the store the model never reads it)
 	v := e.Peek.Verdict
 	if e.Before == 0 && !(e.Del && e.Peek.Persisted && !e.Peek.InStore) {
 		v = e.Pending != 0
 	}
-	return fmt.Sprintf("%s:%s:%d:%s%s", e.Kind, op, ids[k], b(e.Peek.HasPred), b(v))
+	return fmt.Sprintf("%s:%s:%d:%s%s", in.Kind, op, id, b(e.Peek.HasPred), b(v))
 }
 
-// modelLines renders the batches for the Lean store model and what the real updater did.
+// modelLines renders the batches — EVERY event handed to HandleEventBatch — for the Lean handler+store model and what
+// the real handler and updater did with them.
 func modelLines(res *Result) (m, o string) {
-	ids := map[p.Key]int{}
-	var mb, pend, store, cts []string
+	ids := newKeyIDs()
+	var mb, pend, store, fwd, emit, cts []string
 	for _, b := range res.Batches {
-		if b.CT < 0 {
-			continue // the real code panicked inside this batch (reported as P): no Process result to compare
+		ins, ct := b.Obs.In, b.CT
+		if ct < 0 {
+			// the real code panicked inside this batch (reported as P). If it was the capture of an event (a kind the
+			// processor does not know), the model is asked about the batch up to that event; a panic elsewhere
+			// (BuildGraph: C05's business) leaves no Process result to compare.
+			cut := -1
+			for i, in := range ins {
+				if in.Panics {
+					cut = i
+				}
+			}
+			if cut < 0 {
+				continue
+			}
+			ins, ct = ins[:cut+1], 9
 		}
-		var toks, ps, ss []string
-		for _, e := range b.Obs.Events {
-			toks = append(toks, evToken(e, ids))
-			ps = append(ps, fmt.Sprint(e.Pending))
+		var toks, ps, ss, fs, es []string
+		for _, in := range ins {
+			toks = append(toks, evToken(in, ids))
+			ps = append(ps, fmt.Sprint(in.Pend))
 			s := 0
-			if e.Peek.Persisted {
+			if in.Fwd && in.Ev.Peek.Persisted {
 				s = 1
-				if e.Peek.InStore {
+				if in.Ev.Peek.InStore {
 					s = 2
 				}
 			}
 			ss = append(ss, fmt.Sprint(s))
+			f := 0
+			if in.Fwd {
+				f = 1
+			}
+			fs = append(fs, fmt.Sprint(f))
+		}
+		for _, n := range b.Obs.EmitRuns {
+			es = append(es, fmt.Sprint(n))
 		}
 		t := strings.Join(toks, ",")
 		if t == "" {
@@ -83,10 +129,13 @@ func modelLines(res *Result) (m, o string) {
 		mb = append(mb, t)
 		pend = append(pend, orDash(strings.Join(ps, ",")))
 		store = append(store, orDash(strings.Join(ss, ",")))
-		cts = append(cts, fmt.Sprint(b.CT))
+		fwd = append(fwd, orDash(strings.Join(fs, ",")))
+		emit = append(emit, orDash(strings.Join(es, ",")))
+		cts = append(cts, fmt.Sprint(ct))
 	}
 	m = "batches=" + strings.Join(mb, "|")
-	o = "pend=" + strings.Join(pend, "|") + " store=" + strings.Join(store, "|") + " ct=" + strings.Join(cts, ",")
+	o = "pend=" + strings.Join(pend, "|") + " store=" + strings.Join(store, "|") + " fwd=" + strings.Join(fwd, "|") +
+		" emit=" + strings.Join(emit, "|") + " ct=" + strings.Join(cts, ",")
 	return m, o
 }
 
@@ -370,6 +419,7 @@ func Run(args []string) int {
 	shrinkBudget := fs.Int("shrink", 400, "runs spent on shrinking one failing history")
 	maxFail := fs.Int("maxfail", 12, "stop after this many failing histories")
 	emitDir := fs.String("emit-directed", "", "write the directed histories as replay files into this directory and exit")
+	nnSpec := fs.String("nnfilter", DefaultNNFilterSpec, "namespaced-name filters Kind|name|guard|expr;… (from the translator)")
 	if err := fs.Parse(args); err != nil {
 		return 2
 	}
@@ -391,6 +441,10 @@ func Run(args []string) int {
 		ngfSvc: types.NamespacedName{Namespace: podConfig.Namespace, Name: podConfig.ServiceName}})
 	if err != nil {
 		emit("X 0 watch-table: %v", err)
+		return 0
+	}
+	if nnFilters, err = parseNNFilterSpec(*nnSpec, controlConfig); err != nil {
+		emit("X 0 nnfilter-table: %v", err)
 		return 0
 	}
 	rn := &Runner{Watches: ws, CheckEvery: true, Samples: 48}
@@ -438,14 +492,48 @@ func Run(args []string) int {
 			nm++
 			disp[m.Disp]++
 		}
-		emit("H %d ops=%d init=%d muts=%d batches=%d cps=%d filtered=%d dropped=%d relevant=%d nondet=%d nondetskip=%d tags=%s", id, len(h.Ops), len(h.Init),
-			nm, len(res.Batches), len(res.CPs), disp["filtered"], disp["dropped"], disp["relevant"], res.Nondet, res.NondetSkipped, orDash(strings.Join(tags, ",")))
+		// handler layer: events that matched an objectFilter, by (kind, op, forwarded)
+		hl := map[string]int{}
+		for _, b := range res.Batches {
+			for _, in := range b.Obs.In {
+				k := p.Key{Kind: in.Kind, NN: in.NN}
+				if k != ngfSvcKey && k != controlConfigKey {
+					continue
+				}
+				op, f := "u", "kept"
+				if in.Del {
+					op = "d"
+				}
+				if in.Fwd {
+					f = "fwd"
+				}
+				hl[in.Kind+"-"+op+"-"+f]++
+				if len(b.Obs.In) == 1 {
+					hl["alone-in-batch"]++
+				}
+			}
+		}
+		for k, v := range hl {
+			tags = append(tags, fmt.Sprintf("filter:%s:%d", k, v))
+		}
+		sort.Strings(tags)
+		emit("H %d ops=%d init=%d muts=%d batches=%d cps=%d filtered=%d dropped=%d relevant=%d swallowed=%d control=%d nondet=%d nondetskip=%d tags=%s", id, len(h.Ops), len(h.Init),
+			nm, len(res.Batches), len(res.CPs), disp["filtered"], disp["dropped"], disp["relevant"], disp["swallowed"], disp["control"], res.Nondet, res.NondetSkipped, orDash(strings.Join(tags, ",")))
 		if res.Err != "" {
 			emit("X %d %s", id, res.Err)
 			continue
 		}
 		if res.Panic != "" {
 			emit("P %d %s", id, p.PanicSite(res.Panic))
+			if res.PanicInCapture {
+				// the controller died while CAPTURING a delivered event (handler filter callback / unsupported kind handed
+				// to the processor): no configuration will ever be applied again — a violation of C01 by itself
+				d := encodeHistory(h)
+				d.Signature = "handler-panic:" + strings.ReplaceAll(p.PanicSite(res.Panic), " ", ":")
+				d.Story = append(story(res), "panic: "+strings.SplitN(res.Panic, "\n", 2)[0])
+				b, _ := json.Marshal(d)
+				emit("K %d %s", id, string(b))
+			}
 		}
 		if res.ctrl != nil && res.world != nil && res.Panic == "" {
 			// footprint correspondence on the cluster the history ended in (graph of the last rebuild may be
